@@ -955,6 +955,23 @@ func ruleC11CaseCoverage2(c *Ctx, rule string) {
 		c.R.Check(ks&jsonShaped == 0, rule, "panic@"+strings.TrimPrefix(c.pos(p), "util.go:"), c.pos(p), fmt.Sprintf("reached only for kinds %s, outside the JSON-shaped domain", ks),
 			fmt.Sprintf("the equality function can panic for operand kinds %s, which are JSON-shaped", ks&jsonShaped))
 	})
+	// Go's own notions of equality are not JSON equality: reflect.Value.Equal / reflect.DeepEqual / == on interface
+	// values compare pointers by address, numbers by Go type and json.Numbers by spelling. Inside the equality
+	// function they may decide only for kinds where the two notions coincide (bool, string).
+	for _, fi := range c.familyInstrs(eq) {
+		call, ok := fi.I.(*ssa.Call)
+		if !ok {
+			continue
+		}
+		key := core.CalleeKey(&call.Call)
+		if key != "reflect.Value.Equal" && key != "reflect.DeepEqual" {
+			continue
+		}
+		ks := kfx.At(call)
+		safe := Kinds(kBool, kString)
+		c.R.Check(ks != 0 && ks.SubsetOf(safe), rule, "go-equality@"+core.FuncName(call.Parent()), c.pos(call), "Go equality decides only for kinds where it is JSON equality",
+			fmt.Sprintf("the equality function lets %s decide for operand kinds %s: Go equality compares pointers by address, 1 and 1.0 (or json.Number 10 and 1e1) as different, and looks at unexported fields - values that are equal as JSON come out unequal", key, ks))
+	}
 	// recursion on elements: lengths first, missing keys tested
 	n, nElems, nMembers := 0, 0, 0
 	for _, fi := range c.familyInstrs(eq) {
